@@ -112,6 +112,7 @@ type c16Env struct {
 	credCache map[string]string
 	defectCache map[string]*c16VP
 	defects   []c16Defect
+	defectsB  []c16Defect // offered to service B
 	seenCanon map[[32]byte]bool
 	histCanon map[[32]byte][32]byte
 	pollLabels map[[32]byte]int // parent history -> bit 1: some labelled poll realised, bit 2: some label unrealisable
@@ -173,7 +174,7 @@ func c16NewEnv(t *testing.T, r *ev.Run) *c16Env {
 	logrus.SetOutput(io.Discard)
 	logrus.SetLevel(logrus.PanicLevel)
 	e := &c16Env{t: t, r: r, byDID: map[string]*c16Party{}, credCache: map[string]string{},
-		defectCache: map[string]*c16VP{}, defects: c16Defects(), seenCanon: map[[32]byte]bool{}, histCanon: map[[32]byte][32]byte{}, pollLabels: map[[32]byte]int{}, stats: map[string]int64{}}
+		defectCache: map[string]*c16VP{}, defects: c16Defects(), defectsB: c16MultiCredDefects(), seenCanon: map[[32]byte]bool{}, histCanon: map[[32]byte][32]byte{}, pollLabels: map[[32]byte]int{}, stats: map[string]int64{}}
 	e.base = time.Now().Truncate(time.Second)
 	vtime.Freeze(e.base)
 	for i, n := range []string{"a", "b", "c"} {
@@ -190,8 +191,20 @@ func c16NewEnv(t *testing.T, r *ev.Run) *c16Env {
 	for _, p := range append(append([]*c16Party{}, e.subjects...), e.authority, e.mallory, e.keyHolder) {
 		e.byDID[p.did] = p
 	}
+	// service B's definition has TWO input descriptors (TestCredential and RoleCredential): its registrations carry two credentials
 	defB := c16Definition(e.authority.did)
 	defB.ID, defB.Endpoint = c16ServiceB, "http://c16.invalid/discovery/"+c16ServiceB
+	{
+		str := func(s string) *string { return &s }
+		defB.PresentationDefinition.Id = "c16_pd_b"
+		defB.PresentationDefinition.InputDescriptors = append(defB.PresentationDefinition.InputDescriptors, &pe.InputDescriptor{
+			Id: "role",
+			Constraints: &pe.Constraints{Fields: []pe.Field{
+				{Path: []string{"$.type"}, Filter: &pe.Filter{Type: "string", Const: str("RoleCredential")}},
+				{Path: []string{"$.issuer"}, Filter: &pe.Filter{Type: "string", Const: str(e.authority.did)}},
+			}},
+		})
+	}
 	e.defs = map[string]ServiceDefinition{c16Service: c16Definition(e.authority.did), c16ServiceB: defB}
 	vctx := vcr.NewTestVCRContext(t, nutscrypto.NewMemoryCryptoInstance(t))
 	e.vcr = vctx.VCR
@@ -254,13 +267,14 @@ type c16CredOpt struct {
 	ExpAbs  int64 // absolute expiry; 0 = base + 30 days
 	BadSig  bool
 	Fresh   bool // never cached (own id)
+	NoExp   bool // the credential has no expiry at all
 }
 
 func (e *c16Env) cred(o c16CredOpt) string {
 	if o.ExpAbs == 0 {
 		o.ExpAbs = e.base.Unix() + 30*24*3600
 	}
-	key := fmt.Sprintf("%s|%s|%d|%v", o.Type, o.Subject.did, o.ExpAbs, o.BadSig)
+	key := fmt.Sprintf("%s|%s|%d|%v|%v", o.Type, o.Subject.did, o.ExpAbs, o.BadSig, o.NoExp)
 	if !o.Fresh {
 		if c, ok := e.credCache[key]; ok {
 			return c
@@ -279,6 +293,9 @@ func (e *c16Env) cred(o c16CredOpt) string {
 			"credentialSubject": map[string]any{"id": o.Subject.did, "name": "org-" + o.Subject.name},
 		},
 	}
+	if o.NoExp {
+		delete(claims, "exp")
+	}
 	c := c16Sign(signKey, e.authority.kid, claims)
 	if !o.Fresh {
 		e.credCache[key] = c
@@ -287,6 +304,7 @@ func (e *c16Env) cred(o c16CredOpt) string {
 }
 
 type c16VPOpt struct {
+	Iss     *string // nil = the signer's DID; "" = no iss claim; else that value (kid and iss disagree)
 	Signer  *c16Party
 	SignKey *ecdsa.PrivateKey // nil = Signer's
 	NoID    bool
@@ -333,6 +351,13 @@ func (e *c16Env) buildVP(o c16VPOpt) *c16VP {
 			vp["verifiableCredential"] = o.Creds
 		}
 		claims := map[string]any{"iss": o.Signer.did, "sub": o.Signer.did, "nbf": now + o.NbfIn, "vp": vp}
+		if o.Iss != nil {
+			claims["iss"], claims["sub"] = *o.Iss, *o.Iss
+			if *o.Iss == "" {
+				delete(claims, "iss")
+				delete(claims, "sub")
+			}
+		}
 		if id != "" {
 			claims["jti"] = id
 		}
@@ -373,6 +398,7 @@ type c16CredFacts struct {
 
 type c16Facts struct {
 	Format     string // "jwt" | "ldp"
+	Iss        string // iss claim ("" = none)
 	Signer     string // DID of the kid header
 	Method     string
 	ID         string
@@ -451,6 +477,7 @@ func (e *c16Env) facts(raw string) c16Facts {
 		f.Method = parts[1]
 	}
 	f.ID, _ = claims["jti"].(string)
+	f.Iss, _ = claims["iss"].(string)
 	f.Aud = c16Strings(claims["aud"])
 	f.Exp, f.Nbf = c16Num(claims["exp"]), c16Num(claims["nbf"])
 	f.RetractJTI = claims["retract_jti"]
@@ -530,16 +557,33 @@ func (e *c16Env) ref(f c16Facts, now int64, listedID func(string) string) (bool,
 			return false, "outlives-credential"
 		}
 	}
-	if len(f.Creds) == 0 {
+	// "all and only": exactly one credential per input descriptor of the service's definition
+	required := []string{"TestCredential"}
+	if c16Cur == c16ServiceB {
+		required = []string{"TestCredential", "RoleCredential"}
+	}
+	if len(f.Creds) < len(required) {
 		return false, "missing-credential"
 	}
-	if len(f.Creds) > 1 {
+	if len(f.Creds) > len(required) {
 		return false, "surplus-credential"
+	}
+	for _, want := range required {
+		n := 0
+		for _, c := range f.Creds {
+			if c16Has(c.Types, want) && c.Issuer == e.authority.did {
+				n++
+			}
+		}
+		if n != 1 {
+			return false, "credential-not-in-definition"
+		}
+	}
+	if f.Iss != "" && f.Iss != f.Signer {
+		return false, "iss-differs-from-signing-did" // the presenter named by the token is not the party whose key signed it
 	}
 	for _, c := range f.Creds {
 		switch {
-		case !c16Has(c.Types, "TestCredential") || c.Issuer != e.authority.did:
-			return false, "credential-not-in-definition"
 		case !c.SigOK:
 			return false, "vc-signature"
 		case c.Subject != f.Signer:
@@ -1006,7 +1050,11 @@ func (w *c16World) submit(vp *c16VP, label string, honest bool) bool {
 
 func (w *c16World) regVP(s int, validity int64) *c16VP {
 	p := w.e.subjects[s]
-	return w.e.buildVP(c16VPOpt{Signer: p, ExpIn: validity, Creds: []string{w.e.cred(c16CredOpt{Type: "TestCredential", Subject: p})}})
+	creds := []string{w.e.cred(c16CredOpt{Type: "TestCredential", Subject: p})}
+	if c16Cur == c16ServiceB {
+		creds = append(creds, w.e.cred(c16CredOpt{Type: "RoleCredential", Subject: p}))
+	}
+	return w.e.buildVP(c16VPOpt{Signer: p, ExpIn: validity, Creds: creds})
 }
 
 func (w *c16World) reset() {
@@ -1593,8 +1641,79 @@ func c16RetractionVariants() []c16RetractionVariant {
 	}
 }
 
+// c16IssDefects: the token's iss and the signing key (kid) disagree.
+func c16IssDefects() []c16Defect {
+	sp := func(s string) *string { return &s }
+	retract := func(label string, signer func(w *c16World, s int) *c16Party, iss func(w *c16World, s int) *string) c16Defect {
+		return c16Defect{Label: label, PerS: true, State: true, Build: func(w *c16World, s int) *c16VP {
+			en := w.model[w.e.subjects[s].did]
+			if en == nil {
+				return nil
+			}
+			return w.e.buildVP(c16VPOpt{Signer: signer(w, s), Iss: iss(w, s), ExpIn: c16Long, Types: []string{c16RetractType},
+				Extra: map[string]any{"retract_jti": en.VP.Facts.ID}})
+		}}
+	}
+	otherSubject := func(w *c16World, s int) *c16Party { return w.e.subjects[(s+1)%w.cfg.K] }
+	mallory := func(w *c16World, s int) *c16Party { return w.e.mallory }
+	victim := func(w *c16World, s int) *string { return sp(w.e.subjects[s].did) }
+	return []c16Defect{
+		retract("retraction signed by another subject, iss = the entry's subject", otherSubject, victim),
+		retract("retraction signed by another subject, no iss", otherSubject, func(w *c16World, s int) *string { return sp("") }),
+		retract("retraction signed by another subject, iss = a third party", otherSubject, func(w *c16World, s int) *string { return sp(w.e.mallory.did) }),
+		retract("retraction signed by a stranger, iss = the entry's subject", mallory, victim),
+		retract("retraction signed by a stranger, no iss", mallory, func(w *c16World, s int) *string { return sp("") }),
+		{Label: "registration whose iss names another subject", Build: func(w *c16World, s int) *c16VP {
+			p := w.e.subjects[s]
+			return w.e.buildVP(c16VPOpt{Signer: p, Iss: sp(w.e.subjects[(s+1)%2].did), ExpIn: c16Long,
+				Creds: []string{w.e.cred(c16CredOpt{Type: "TestCredential", Subject: p})}})
+		}},
+		{Label: "registration whose iss names a stranger", Build: func(w *c16World, s int) *c16VP {
+			p := w.e.subjects[s]
+			return w.e.buildVP(c16VPOpt{Signer: p, Iss: sp(w.e.mallory.did), ExpIn: c16Long,
+				Creds: []string{w.e.cred(c16CredOpt{Type: "TestCredential", Subject: p})}})
+		}},
+	}
+}
+
+// c16MultiCredDefects (offered to service B, whose definition asks for two credentials): presentations valid for one hour
+// whose two credentials expire {never, before the presentation, after it} in every order; those with at least one
+// credential expiring BEFORE the presentation are defective (the others are ordinary registrations and are not offered
+// as self-loops).
+func c16MultiCredDefects() []c16Defect {
+	kinds := []string{"none", "before", "after"}
+	var out []c16Defect
+	for _, k1 := range kinds {
+		for _, k2 := range kinds {
+			if k1 != "before" && k2 != "before" {
+				continue
+			}
+			k1, k2 := k1, k2
+			out = append(out, c16Defect{Label: "two credentials expiring " + k1 + " / " + k2 + " the presentation", Build: func(w *c16World, s int) *c16VP {
+				p := w.e.subjects[s]
+				mk := func(typ, k string) string {
+					switch k {
+					case "none":
+						return w.e.cred(c16CredOpt{Type: typ, Subject: p, NoExp: true})
+					case "before":
+						return w.e.cred(c16CredOpt{Type: typ, Subject: p, ExpAbs: w.e.now() + 1800})
+					}
+					return w.e.cred(c16CredOpt{Type: typ, Subject: p, ExpAbs: w.e.now() + 3*3600})
+				}
+				return w.e.buildVP(c16VPOpt{Signer: p, ExpIn: c16Short, Creds: []string{mk("TestCredential", k1), mk("RoleCredential", k2)}})
+			}})
+		}
+	}
+	// one credential missing / a third one on the two-descriptor service
+	out = append(out, c16Defect{Label: "one of the two required credentials missing", Build: func(w *c16World, s int) *c16VP {
+		p := w.e.subjects[s]
+		return w.e.buildVP(c16VPOpt{Signer: p, ExpIn: c16Long, Creds: []string{w.e.cred(c16CredOpt{Type: "RoleCredential", Subject: p})}})
+	}})
+	return out
+}
+
 func c16Defects() []c16Defect {
-	base := c16BaseDefects()
+	base := append(c16BaseDefects(), c16IssDefects()...)
 	for _, v := range c16RetractionVariants() {
 		v := v
 		// (a) a retraction of the subject's LISTED entry (right signer, right retract_jti) that carries the defect
@@ -1805,6 +1924,25 @@ func (w *c16World) offerDefects() int {
 			w.e.r.Eval("defect|" + d.Label + "|" + w.canon)
 		}
 	}
+	if !light && !w.dirty {
+		// multi-credential defects go to service B (two input descriptors); they depend on the clock only
+		w.on(c16ServiceB, func() {
+			for _, d := range w.e.defectsB {
+				if w.dirty {
+					return
+				}
+				ck := fmt.Sprintf("B|%s|%d", d.Label, w.e.now())
+				vp := w.e.defectCache[ck]
+				if vp == nil {
+					vp = d.Build(w, 0)
+					w.e.defectCache[ck] = vp
+				}
+				n++
+				w.submit(vp, d.Label+" (service B)", false)
+				w.e.r.Eval("defect|B|" + d.Label + "|" + w.canon)
+			}
+		})
+	}
 	return n
 }
 
@@ -1911,7 +2049,7 @@ func TestVerifC16BFS(t *testing.T) {
 		"register / retract on a SECOND service (configurations validation-* and services-*), server reset, reset+register×k, restart(server), restart(client) — a new Module started " +
 		"through Module.Start on the SAME database} on a real server Module and a real client " +
 		"Module (two SQLite databases, real verifier, virtual clock); a state = canonical form of both databases + replay candidates; " +
-		"in every new state the defective-registration alphabet (25 kinds of defective registration / retraction, plus 12 generic defects applied to a retraction " +
+		"in every new state the defective-registration alphabet (32 kinds of defective registration / retraction incl. iss/kid disagreement, 6 two-credential expiry combinations on a second service whose definition has two input descriptors, plus 12 generic defects applied to a retraction " +
 		"of each subject's listed entry and 11 to a retraction of an unlisted id; quick tier: at the deepest level only the kinds whose " +
 		"handling reads the list or that are tried per subject, plus 3 representatives) is offered to the server (self-loop transitions), the " +
 		"client's Search is judged (poll events carry the resolution of the client's map-order nondeterminism, all resolutions enumerated), and a fair suffix of polls must end with Search == server live set. The BFS prefix to the split depth " +
